@@ -4,6 +4,7 @@ import (
 	"fmt"
 	"io"
 	"os"
+	pathpkg "path"
 	"path/filepath"
 	"sort"
 	"strings"
@@ -406,6 +407,34 @@ func (c *Ctx) genOsTree() []osNode {
 	return ns
 }
 
+// derivedPaths: paths that enter a directory through a symlink and end at one of its children (in particular at
+// another symlink): the interaction cases nobody writes by hand.
+func derivedPaths(ns []osNode) []string {
+	var out []string
+	for _, l := range ns {
+		if l.kind != 'L' || strings.Contains(l.target, "@") {
+			continue
+		}
+		var t string
+		if strings.HasPrefix(l.target, "/") {
+			t = pathpkg.Clean(l.target)
+		} else {
+			t = pathpkg.Clean("/" + pathpkg.Join(pathpkg.Dir(l.path), l.target))
+		}
+		t = strings.TrimPrefix(t, "/")
+		for _, n := range ns {
+			d := pathpkg.Dir(n.path)
+			if d == "." {
+				d = ""
+			}
+			if d == t {
+				out = append(out, l.path+"/"+pathpkg.Base(n.path))
+			}
+		}
+	}
+	return out
+}
+
 func osfsEngine(c *Ctx) {
 	if ls := replayLines(); ls != nil {
 		for _, op := range ls {
@@ -428,6 +457,9 @@ func osfsEngine(c *Ctx) {
 		{{"d", 'd', ""}, {"d/l1", 'L', "../l2"}, {"l2", 'L', "d/l1/x"}},
 		{{"l1", 'L', "../../secret"}, {"l2", 'L', "@OUT@/secret"}, {"d", 'd', ""}, {"d/l1", 'L', "@OUT@"}},
 		{{"a", 'f', ""}, {"l1", 'L', "a/x"}},
+		// a final symlink reached through a symlinked directory: its target is relative to where it really is
+		{{"real", 'd', ""}, {"real/sub", 'd', ""}, {"real/data", 'f', ""}, {"data", 'f', ""}, {"alias", 'L', "real/sub"}, {"real/sub/l", 'L', "../data"}},
+		{{"d", 'd', ""}, {"d/sub", 'd', ""}, {"d/sub/l2", 'L', "../../secret"}, {"secret", 'f', ""}, {"l1", 'L', "/d/sub"}},
 	}
 	paths := []string{".", "a", "b", "d", "d/a", "l1", "l2", "l1/a", "l2/a", "d/l1", "d/l1/a", "sub", "sub/a", "f", "f/x", "nope", "l1/..", "d/sub/a", "l1/l2", "deep/er", "secret"}
 	ops := []string{"stat", "lstat", "open", "mkdir", "chmod", "settimes", "readdir", "readlink"}
@@ -444,6 +476,13 @@ func osfsEngine(c *Ctx) {
 			ps = nil
 			for i := 0; i < 8; i++ {
 				ps = append(ps, paths[c.Intn(len(paths))])
+			}
+		}
+		dps := derivedPaths(ns)
+		ps = append(append([]string(nil), ps...), dps...)
+		for _, p := range dps {
+			for _, o := range []string{"open", "stat", "chmod", "readlink"} {
+				osfsExec(c, fmt.Sprintf("osfs %s op %s %s", tt, o, hx(p)))
 			}
 		}
 		for _, p := range ps {
